@@ -115,22 +115,32 @@ class Unit(as2a.Unit):
         ta = open(os.path.join(core.SRC, 'celma/prog_args/detail/typed_arg.hpp')).read()
         self.assigners = []
         inc = ['// generated: member functions sliced out of celma/prog_args/detail/typed_arg.hpp (T := int, N := CV_N)']
-        for kind, spec, env in (('carray', 'T[ N]', 'CV_TA_carray'), ('stdarray', 'std::array< T, N>', 'CV_TA_stdarray')):
-            m = re.search(r'template< typename T, size_t N>\n   void TypedArg< %s>::assign\( const std::string& value, bool\)\n\{\n.*?\n\} // TypedArg< %s>::assign\n'
+        for kind, spec, env in (('carray', 'T[ N]', 'CV_TA_carray'), ('stdarray', 'std::array< T, N>', 'CV_TA_stdarray'), ('bitset', 'std::bitset< N>', 'CV_TA_bitset')):
+            tmpl = r'template< size_t N>' if kind == 'bitset' else r'template< typename T, size_t N>'
+            m = re.search(tmpl + r'\n   void TypedArg< %s>::assign\( const std::string& value, bool\)\n\{\n.*?\n\} // TypedArg< %s>::assign\n'
                           % (re.escape(spec), re.escape(spec)), ta, flags=re.S)
             if not m:
                 raise Undecided('slice rule: TypedArg< %s>::assign not found in typed_arg.hpp' % spec)
             t = m.group(0)
-            rules = [('T-INST-head', r'template< typename T, size_t N>\n   void TypedArg< %s>::assign\(' % re.escape(spec), 'void %s::assign(' % env, 1),
-                     ('T-INST-T', r'boost::lexical_cast< T>', 'boost::lexical_cast< CV_T>', 1),
-                     ('T-INST-N', r'\bN\b', 'CV_N', (1, 3)),
+            rules = [('T-INST-head', tmpl + r'\n   void TypedArg< %s>::assign\(' % re.escape(spec), 'void %s::assign(' % env, 1),
+                     ('T-INST-N', r'\bN\b', 'CV_N', (1, 3))]
+            if kind == 'bitset':
+                rules += [('R-BOOLCONV', r'if \(mpCardinality && ', 'if ((mpCardinality.get() != nullptr) && ', 1),   # no user-defined conversion operators in the front end
+                          ('R-AUTO-init2', r'auto const&  list_val\( \*it\);', 'const std::string  list_val( *it);', 1),
+                          ('R-AUTO-init3', r'auto  valCopy\( list_val\);', 'std::string  valCopy( list_val);', 1)]
+            else:
+                rules += [('T-INST-T', r'boost::lexical_cast< T>', 'boost::lexical_cast< CV_T>', 1),
+                          ('R-AUTO-init', r'auto  list_val\( \*it\);', 'std::string  list_val( *it);', 1)]
+            rules += [
+                     # T-INST-tag: instantiations of a function template that differ only in the return type collide in the front end;
+                     # lexical_cast< X>( v) is spelled with a tag argument that carries X
+                     ('T-INST-tag', r'boost::lexical_cast< (\w+)>\( ', r'boost::cv_lexical_cast( static_cast< \1*>( 0), ', (1, 2)),
                      # R-INDUCT: the front end rejects loop contracts in C++; the loop is checked by induction instead: the body runs
                      # once from an arbitrary token position and an arbitrary state satisfying the invariant (mIndex <= N, required
                      # and ensured by the harness); `continue` reaches the increment expression and leaves
                      ('R-INDUCT', r'for \(auto it = tok\.begin\(\); it != tok\.end\(\); \+\+it\)', 'for (cv_tok_iterator it = tok.cv_any_position(); cv_once && it != tok.end(); cv_once = false)', 1),
                      # R-ARROW: the front end has no user-defined operator->; for std::unique_ptr p->f() is p.get()->f()
                      ('R-ARROW', r'mpCardinality->gotValue\(\)', 'mpCardinality.get()->gotValue()', 1),
-                     ('R-AUTO-init', r'auto  list_val\( \*it\);', 'std::string  list_val( *it);', 1),
                      ('R-THROW-cut', r'throw std::runtime_error\([^;]*\);', 'CV_THROW_CUT( 1);', 2)]
             fired = {}
             for name, pat, rep, cnt in rules:
@@ -148,6 +158,8 @@ class Unit(as2a.Unit):
             sh.report.append({'file': 'celma/prog_args/detail/typed_arg.hpp [slice TypedArg< %s>::assign]' % spec, 'rules': fired,
                               'diff_lines': sum(fired.values()), 'lines': m.group(0).count('\n')})
             # static fact behind the invariant's base case: mIndex is initialised to 0 and written nowhere but in assign()
+            if kind == 'bitset':
+                continue   # no index state: every position comes from the token itself
             cls = ta[ta.index('class TypedArg< %s>' % spec):m.end()]
             writes = re.findall(r'[^\n]*(?:\+\+\s*mIndex|mIndex\s*(?:\+\+|--|[-+*/]?=(?!=)))[^\n]*', cls)
             init = [w for w in writes if re.search(r'size_t\s+mIndex = 0;', w)]
@@ -156,6 +168,29 @@ class Unit(as2a.Unit):
                 raise Undecided('static fact: mIndex of TypedArg< %s> is written outside its initialiser and assign(): %r' % (spec, other[:2]))
         self.assign_path = scratch.write('gen/array_assigners.inc', '\n'.join(inc))
         self.ha = scratch.write('gen/h_c04_assign.cpp', HARNESS_ASSIGN)
+        # ---- the complete program-name handling of the two functions (everything between the copy and the call that evaluates
+        # the file / the variable): sliced statement blocks, checked in dfcc mode against a FRAME contract (assigns), because the
+        # library functions involved return static storage that must not be written (CBMC has no read-only memory; only the frame
+        # check sees such a write)
+        self.blocks = []
+        m0 = re.search(r'void Handler::readEvalFileArguments\( const char\* arg0\)\n\{.*?\n(   std::unique_ptr< char(?:\[\])?>\s+copy\(.*?)\n\s*readArgumentFile\(', src, flags=re.S)
+        m1 = re.search(r'void Handler::checkReadEnvVarArgs\( const char\* arg0\)\n\{.*?\n   if \(mEnvVarName\.empty\(\)\)\n   \{\n(.*?)\n   \} // end if', src, flags=re.S)
+        for k, m in enumerate((m0, m1)):
+            if not m:
+                raise Undecided('slice rule: program-name block %d not found in handler.cpp' % k)
+            t, n_new = re.subn(r'new char\[ ([^\]]+)\]', r'cv_new_chars( \1)', m.group(1))   # R-NEWARR: array new is unusable under dfcc
+            t = re.sub(r'\bauto\s+const(\s+\w+\s*=)', r'const auto\1', t)
+            t, n_auto = re.subn(r'((?:const\s+)?)auto(\s+)(\w+)\s*=\s*([^;]+);', core._auto_repl, t)
+            if re.search(r'\bauto\b', re.sub(r'//[^\n]*', '', t)):
+                raise Undecided('program-name block %d still contains an `auto` the rules do not cover' % k)
+            self.blocks.append(t)
+            sh.report.append({'file': 'library/prog_args/handler.cpp [program-name block %d]' % k, 'rules': {'R-NEWARR': n_new, 'R-AUTO(generic)': n_auto, 'slice': 1},
+                              'diff_lines': n_new + n_auto, 'lines': m.group(1).count('\n') + 1})
+        scratch.write('gen/name_blocks.inc',
+                      'extern "C" void w_block_0( const char* arg0)\n{\n%s\n}\n'
+                      'extern "C" void w_block_1( const char* arg0, void* name_obj)\n{\n   std::string& mEnvVarName = *static_cast< std::string*>( name_obj);\n%s\n}\n' % tuple(self.blocks))
+        self.hb = scratch.write('gen/h_c04_blocks.cpp', HARNESS_BLOCKS_CPP)
+        self.cb = scratch.write('gen/c04_blocks.c', HARNESS_BLOCKS_C)
         self.h4 = scratch.write('gen/h_c04.cpp', HARNESS_IT)
         self.hn = scratch.write('gen/h_c04_names.cpp', HARNESS_NAMES)
 
@@ -247,9 +282,12 @@ struct Tokenizer { size_t mCount;                                         // any
   cv_tok_iterator cv_any_position() const { cv_tok_iterator i; i.mPos = cvin_tok_pos; __CPROVER_assume(i.mPos <= mCount); return i; } };
 template< typename C, typename V> bool contains( const C&, const V&) { return cv_nondet_bool(); }   // reads the container only
 }}
-namespace boost { template< typename T> T lexical_cast( const std::string&) { if (cv_nondet_bool()) __CPROVER_assume(0); /* bad_lexical_cast */ return cv_nondet_val(); } }
+namespace boost { template< typename T> T cv_lexical_cast( T*, const std::string&) { if (cv_nondet_bool()) __CPROVER_assume(0); /* bad_lexical_cast */ T cvin_cast_value; return cvin_cast_value; /* any value of the type */ } }
 namespace std {
 template< typename T, size_t N> struct array { T mE[N]; T& operator[]( size_t i) { return mE[i]; } T* begin() { return mE; } };
+// std::bitset< N>::operator[]( pos): undefined behaviour for pos >= N (unchecked access) -- a checked precondition here
+template< size_t N> struct bitset { bool mB[N]; bool& operator[]( size_t pos) { __CPROVER_assert(pos < N, "std::bitset::operator[]: pos < N (unchecked access, undefined behaviour otherwise)"); return mB[pos < N ? pos : 0]; }
+  void reset() { for (size_t i = 0; i < N; ++i) mB[i] = false; } };
 // std::sort( first, last): requires a valid range [first, last) inside one object
 inline void sort( CV_T* first, CV_T* last) { const char* f = (const char*)first; const char* l = (const char*)last;
   __CPROVER_assert(__CPROVER_same_object(f, l), "std::sort: first and last point into the same array");
@@ -271,6 +309,11 @@ typedef std::array< CV_T, CV_N> cv_array_type;
 // element of the separate N-element destination indexes identically
 CV_ENV(CV_TA_carray, CV_T* mDestVar, CV_T*)
 CV_ENV(CV_TA_stdarray, cv_array_type& mDestVar, cv_array_type&)
+typedef std::bitset< CV_N> cv_bitset_type;
+struct CV_TA_bitset { CV_TA_bitset( cv_bitset_type& d): mDestVar( d) { } cv_bitset_type& mDestVar; char mListSep; bool mClearB4Assign; bool mResetFlags;
+  cv_Formats mFormats; cv_CardPtr mpCardinality;
+  void check( const std::string&) { if (cv_nondet_bool()) __CPROVER_assume(0); } void format( std::string&) { }
+  void assign( const std::string& value, bool); };
 #include "gen/array_assigners.inc"
 }}}
 using namespace celma::prog_args::detail;
@@ -279,9 +322,90 @@ using namespace celma::prog_args::detail;
   cvin_tok_pos = cv_nondet_size(); size_t cvin_index = cv_nondet_size(); __CPROVER_assume(cvin_index <= CV_N);   /* invariant: 0 <= mIndex <= N (mIndex starts at 0, written only by assign) */ \
   a.mIndex = cvin_index; cv_once = true; std::string v; a.assign( v, false); \
   __CPROVER_assert(a.mIndex <= CV_N, "invariant preserved: mIndex <= N after one pass of the token loop"); CANARY; }
+extern "C" void h_assign_bitset() { cv_bitset_type dest; CV_TA_bitset a( dest); cv_Cardinality card; a.mpCardinality.mP = cv_nondet_bool() ? &card : (cv_Cardinality*)0;
+  a.mClearB4Assign = cv_nondet_bool(); a.mResetFlags = cv_nondet_bool(); a.mListSep = ','; cvin_tok_pos = cv_nondet_size(); cv_once = true; std::string v; a.assign( v, false); CANARY; }
 HARNESS(h_assign_carray, CV_TA_carray, cv_carray_type)
 HARNESS(h_assign_stdarray, CV_TA_stdarray, cv_array_type)
 '''
+
+
+HARNESS_BLOCKS_CPP = r'''// generated: environment of the program-name blocks of Handler (dfcc mode).  Static storage handed out by the C library is
+// global and NOT part of the frame: a write through such a pointer fails the assigns clause.
+#include <cstdint>
+#include <cstddef>
+#include <cstring>
+#include <string>
+using std::string;
+extern "C" { char cv_basename_static[2] = { '.', 0 };       // POSIX basename() may return a pointer to static storage
+             char cv_env_value[4] = { '/', 'h', 0, 0 }; }   // getenv() returns a pointer into the environment: not to be modified
+static bool cv_nondet_bool() { unsigned char c; return (c & 1) != 0; }
+inline char* cv_new_chars( size_t n) { char* p = static_cast< char*>( malloc( n)); __CPROVER_assume(p != 0); return p; }   // operator new[] never returns null
+// basename( path) as glibc's __xpg_basename (the one <libgen.h> selects) behaves: may modify the string pointed to by path (trailing
+// slashes), returns a pointer into it, or to static storage for a null / empty path.  (POSIX would allow static storage for
+// any path; demanding that would flag code that is safe on this platform.)
+extern "C" char* basename( char* path) {
+  if (path == 0 || path[0] == 0) return cv_basename_static;
+  size_t len = strlen( path), k, z; __CPROVER_assume(k <= len && k <= z && z <= len);
+  if (cv_nondet_bool()) path[z] = 0;      // e.g. trailing slashes removed
+  return path + k; }
+extern "C" char* getenv( const char* name) { __CPROVER_assert(name != 0, "getenv: name is a string"); return cv_nondet_bool() ? cv_env_value : (char*)0; }
+extern "C" int toupper( int c) { return (c >= 'a' && c <= 'z') ? c - 'a' + 'A' : c; }
+namespace boost { inline void to_upper( std::string& s) { for (size_t i = 0; i < CV_STR_CAP; ++i) if (i < s.mLen) s.mData[i] = (char)toupper( (unsigned char)s.mData[i]); } }
+namespace std { template< typename T> class unique_ptr;
+template<> class unique_ptr< char[]> { public: explicit unique_ptr( char* p): mP( p) { } ~unique_ptr() { free( mP); } char* get() const { return mP; } char* mP; };
+template<> class unique_ptr< char> { public: explicit unique_ptr( char* p): mP( p) { } ~unique_ptr() { free( mP); } char* get() const { return mP; } char* mP; }; }
+#include "gen/name_blocks.inc"
+extern "C" { size_t w_str_size() { return sizeof( std::string); } size_t w_str_len( const void* s) { return static_cast< const std::string*>( s)->mLen; }
+  char w_str_at( const void* s, size_t i) { return static_cast< const std::string*>( s)->mData[i]; } }
+'''
+
+HARNESS_BLOCKS_C = r'''/* generated: frame contracts for the two program-name blocks (enforced with goto-instrument --dfcc) */
+#include <stddef.h>
+void w_block_0(const char* arg0); void w_block_1(const char* arg0, void* name_obj);
+size_t w_str_size(void); size_t w_str_len(const void*); char w_str_at(const void*, size_t);
+extern char cv_basename_static[2]; extern char cv_env_value[4];
+/* contract of the C library's static storage (statics are arbitrary in the context of a contract): both hold C strings */
+#define STATIC_OK (cv_basename_static[0] != 0 && cv_basename_static[1] == 0 && cv_env_value[3] == 0)
+#define NAME_OK(a, n) (STATIC_OK && (n) <= NB && __CPROVER_is_fresh(a, (n) + 1) && (a)[n] == 0 NOZ(a, n))
+/* readEvalFileArguments up to the call of readArgumentFile: nothing visible to the caller is written */
+void cw_block_0(const char* arg0, size_t n)
+__CPROVER_requires(NAME_OK(arg0, n))
+__CPROVER_assigns()
+{ w_block_0(arg0); }
+/* checkReadEnvVarArgs, derivation of the variable name: only the (empty) name string is written; it ends up no longer than the program name */
+void cw_block_1(const char* arg0, size_t n, void* name_obj)
+__CPROVER_requires(NAME_OK(arg0, n))
+__CPROVER_requires(__CPROVER_is_fresh(name_obj, STRSZ) && w_str_len(name_obj) == 0 && w_str_at(name_obj, 0) == 0)
+__CPROVER_assigns(__CPROVER_object_whole(name_obj))
+__CPROVER_ensures(w_str_len(name_obj) <= (n == 0 ? 1 : n) && w_str_at(name_obj, w_str_len(name_obj)) == 0)
+{ w_block_1(arg0, name_obj); }
+void h_block_0(void) { const char* arg0; size_t n; __CPROVER_assert(w_str_size() == STRSZ, "layout witness: sizeof(std::string stand-in)"); cw_block_0(arg0, n); __CPROVER_assert(0, "CV_CANARY"); }
+void h_block_1(void) { const char* arg0; size_t n; void* name_obj; __CPROVER_assert(w_str_size() == STRSZ, "layout witness: sizeof(std::string stand-in)"); cw_block_1(arg0, n, name_obj); __CPROVER_assert(0, "CV_CANARY"); }
+'''
+
+
+def make_build_block(unit, k, nb, cap):
+    def build(job, wd):
+        # sizeof of the stand-in string in CBMC's C++ layout, measured by cbmc itself (asserted again in the harness)
+        probe = os.path.join(wd, 'sz.cpp')
+        open(probe, 'w').write('#include <string>\nint main() { __CPROVER_assert(sizeof(std::string) == CV_SZ, "sz"); }\n')
+        strsz = None
+        for cand in range(cap + 1 + 8, cap + 1 + 8 + 17):
+            core.goto_cc(['-nostdinc', '-I', core.STUBS, '-DCV_STRING_INLINE', '-DCV_STR_CAP=%d' % cap, '-DCV_SZ=%d' % cand, probe, '-o', 'sz.gb'], wd, 'size probe')
+            rc, out, err, sec = core.run(['cbmc', 'sz.gb'], cwd=wd, timeout=120)
+            if 'VERIFICATION SUCCESSFUL' in out:
+                strsz = cand
+                break
+        if strsz is None:
+            raise Undecided('could not determine sizeof(std::string stand-in) in the CBMC layout')
+        noz = ''.join(' && (%d >= (n) || (a)[%d] != 0)' % (i, i) for i in range(nb))
+        core.goto_cc(['-nostdinc', '-I', core.STUBS, '-I', unit.scratch.dir, '-DCV_STRING_INLINE', '-DCV_STR_CAP=%d' % cap, unit.hb, '-o', 'cpp.gb'], wd, 'program-name blocks TU')
+        core.goto_cc(['-DNB=%d' % nb, '-DSTRSZ=%d' % strsz, '-DNOZ(a,n)=' + noz, unit.cb, '-o', 'c.gb'], wd, 'program-name block contracts')
+        h = 'h_block_%d' % k
+        core.goto_cc(['cpp.gb', 'c.gb', '--function', h, '-o', 'l.gb'], wd, 'link')
+        core.dfcc('l.gb', 'i.gb', h, ('cw_block_%d' % k, 'cw_block_%d' % k), [], cwd=wd)
+        return os.path.join(wd, 'i.gb')
+    return build
 
 
 def make_build_assign(unit, entry, n):
@@ -331,6 +455,11 @@ def jobs(unit, tier, only=None):
                    'strcpy destination holds strlen+1 bytes; array new released by array delete (harness)', make_build_names(unit),
                    backend='sat', unwind=4, timeout=300, mode='harness', instance={'slices': len(unit.slices), 'name_length': 'unbounded (<= 100000)'},
                    extra_flags=['--drop-unused-functions', '--memory-leak-check']))
+    nb = 4 if tier == 'quick' else 6
+    for k, fn in ((0, 'Handler::readEvalFileArguments: program-name block (copy .. file name built)'), (1, 'Handler::checkReadEnvVarArgs: program-name block (copy .. variable name)')):
+        out.append(Job('c04_name_block_%d' % k, fn, 'frame contract: nothing but the block\'s own allocations%s is written' % (' and the name string' if k else ''),
+                       make_build_block(unit, k, nb, nb + 20), backend='sat', unwind=nb + 24, timeout=900, instance={'name_length': '<= %d' % nb},
+                       bounded='program name <= %d characters' % nb))
     for a in unit.assigners:
         for n in ((1, 3) if tier == 'quick' else (1, 2, 3, 8)):
             out.append(Job('c04_assign_%s_N%d' % (a['kind'], n), a['function'] + ' (sliced function, T := int)',
@@ -342,11 +471,57 @@ def jobs(unit, tier, only=None):
     return out
 
 
+def _lib_objects(scratch):
+    """objects of the prog_args part of the library (ASan/UBSan), built once per run"""
+    import glob
+    odir = os.path.dirname(scratch.path('replay', 'c04_objs', '.keep'))
+    flags = ['-std=c++17', '-w', '-g', '-O0', '-fsanitize=address,undefined', '-fno-sanitize=vptr', '-fno-sanitize-recover=all', '-I', core.SRC]
+    if not glob.glob(os.path.join(odir, '*.o')):
+        srcs = (sorted(glob.glob(os.path.join(core.SRC, 'library/prog_args/*.cpp'))) + sorted(glob.glob(os.path.join(core.SRC, 'library/prog_args/detail/*.cpp'))) +
+                [os.path.join(core.SRC, 'library/appl/arg_string_2_array.cpp'), os.path.join(core.SRC, 'library/format/text_block.cpp')])
+        from concurrent.futures import ThreadPoolExecutor
+        def cc(src):
+            return core.run(['g++'] + flags + ['-c', src, '-o', os.path.join(odir, os.path.basename(src)[:-4] + '.o')], timeout=600, limit=False)
+        with ThreadPoolExecutor(core.NCPU) as ex:
+            res = list(ex.map(cc, srcs))
+        bad = [r for r in res if r[0] != 0]
+        if bad:
+            return None, flags, 'replay build failed: ' + bad[0][2][-600:]
+    return sorted(glob.glob(os.path.join(odir, '*.o'))), flags, None
+
+
+def replay_block(job, inputs, scratch):
+    """The counterexample fixes the length of the program name; names of that length in a few shapes are tried on the real Handler."""
+    objs, flags, err = _lib_objects(scratch)
+    if objs is None:
+        return {'outcome': 'unavailable', 'detail': err}
+    exe = scratch.path('replay', 'c04_names')
+    if not os.path.exists(exe):
+        rc, out, e, s = core.run(['g++'] + flags + [os.path.join(core.VERIF, 'replay', 'c04_names.cpp')] + objs + ['-o', exe], timeout=600, limit=False)
+        if rc != 0:
+            return {'outcome': 'unavailable', 'detail': 'replay link failed: ' + e[-600:]}
+    n = inputs.get('n') if isinstance(inputs.get('n'), int) else 0
+    n = max(0, min(n, 64))
+    mode = '0' if job.name.endswith('_0') else '1'
+    shapes = [''] if n == 0 else ['x' * n, '/' * n, 'x' * (n - 1) + '/', ('./' + 'x' * n)[:n], ('x/' * n)[:n], '.' * n]
+    # boundary names as well
+    shapes += [x for x in ('', '/', '.', '//') if x not in shapes]
+    last = None
+    for nm in shapes:
+        args = [exe, mode, 'name=' + ''.join('%02x' % ord(c) for c in nm)]
+        rc, out, e, s = core.run(args, timeout=60, limit=False, env={'ASAN_OPTIONS': 'detect_leaks=0'})
+        last = {'outcome': 'reproduced' if rc != 0 else 'not-reproduced', 'cmd': 'replay/c04_names.cpp: ' + ' '.join(args[1:]), 'args': {'argv': args[1:]},
+                'output': (out + e).strip()[-1500:], 'note': 'the counterexample fixes the name length (%d); name shapes of that length and the boundary names "", "/", "." are tried' % n}
+        if rc != 0:
+            return last
+    return last
+
+
 def replay_assign(job, inputs, scratch):
     """The counterexample is a state (values already stored, position of the token): the real Handler is driven into it with a
     command line and the destination lives in a heap block of exactly N ints."""
     import glob
-    n, kind = job.instance['N'], (0 if 'carray' in job.name else 1)
+    n, kind = job.instance['N'], (0 if 'carray' in job.name else (1 if 'stdarray' in job.name else 2))
     odir = scratch.path('replay', 'c04_objs', '.keep')
     odir = os.path.dirname(odir)
     flags = ['-std=c++17', '-w', '-g', '-O0', '-fsanitize=address,undefined', '-fno-sanitize=vptr', '-fno-sanitize-recover=all', '-I', core.SRC]
@@ -368,7 +543,7 @@ def replay_assign(job, inputs, scratch):
         if rc != 0:
             return {'outcome': 'unavailable', 'detail': 'replay link failed: ' + err[-600:]}
     gi = lambda k: inputs.get(k) if isinstance(inputs.get(k), int) else 0
-    args = [exe, str(gi('cvin_index')), '1' if gi('cvin_tok_pos') == 0 else '0']
+    args = [exe, str(gi('cvin_index')), '1' if gi('cvin_tok_pos') == 0 else '0'] if kind != 2 else [exe, str(gi('cvin_cast_value'))]
     rc, out, err, s = core.run(args, timeout=60, limit=False, env={'ASAN_OPTIONS': 'detect_leaks=0'})
     return {'outcome': 'reproduced' if rc != 0 else 'not-reproduced', 'cmd': 'replay/c04_assign.cpp -DCV_N=%d -DCV_KIND=%d: %s' % (n, kind, ' '.join(args[1:])),
             'args': {'argv': args[1:], 'N': n, 'kind': kind}, 'output': (out + err).strip()[-1500:]}
@@ -377,6 +552,17 @@ def replay_assign(job, inputs, scratch):
 def replay(unit, job, o, inputs, scratch):
     if 'assign' in job.name:
         return replay_assign(job, inputs, scratch)
+    if 'name_block' in job.name:
+        return replay_block(job, inputs, scratch)
+    if 'as2a' in job.name:
+        gi = lambda k, d=0: inputs.get(k) if isinstance(inputs.get(k), int) else d
+        chars = [x for x in inputs.get('cvin_seq_c', []) if isinstance(x, int)]
+        n = max(0, min(gi('n'), len(chars)))
+        a = ['ctor', 'line=' + ''.join('%02x' % (c & 255) for c in chars[:n])]
+        if 'name' in job.name and gi('with_name'):
+            pc = [x for x in inputs.get('cvin_seq_p', []) if isinstance(x, int)]
+            a.append('name=' + ''.join('%02x' % (c & 255) for c in pc[:max(0, min(gi('pl'), len(pc)))]))
+        return as2a.native_replay(scratch, a)
     if 'iter' not in job.name:
         return {'outcome': 'unavailable', 'detail': 'no native replay for this C04 unit (counterexample inputs are in this file)'}
     # the counterexample is a cursor STATE; the replay iterates the real iterator over the counterexample's argv from the
@@ -414,8 +600,10 @@ def evidence_info(unit, tier):
                        'ArgListIterator cursor over argv (argc <= 4, every word a separately allocated block of exactly strlen+1 arbitrary non-NUL '
                        'bytes, optional remArgStrAsVal() before every step, iteration to end()), ArgString2Array construction/destruction '
                        '(arbitrary NUL-free string, null or given program name; argv layout asserted, --memory-leak-check), and the two program-name '
-                       'copies of Handler (statements sliced out mechanically; name length unbounded; strcpy/strlen bound to their contract), and the two '
-                       'fixed-size destinations of typed_arg.hpp, TypedArg<T[N]>::assign and TypedArg<std::array<T,N>>::assign (whole function '
+                       'copies of Handler (statements sliced out mechanically; name length unbounded; strcpy/strlen bound to their contract), the complete program-name '
+                       'handling of both functions (statement blocks up to the call that evaluates the file / the variable) in dfcc mode against a FRAME contract (assigns) - '
+                       'CBMC has no read-only memory, only the frame check sees a write into static storage the C library hands out -, and the three '
+                       'fixed-size destinations of typed_arg.hpp, TypedArg<T[N]>::assign, TypedArg<std::array<T,N>>::assign and TypedArg<std::bitset<N>>::assign (whole function '
                        'definitions sliced out, T := int, checked by induction over the token loop from any state with mIndex <= N: unbounded in '
                        'tokens and calls, environment by assumed contracts). '
                        'Termination and "only std::exception escapes" are not decided; the rest of the handler (boost, iostreams, std::function, '
@@ -424,15 +612,16 @@ def evidence_info(unit, tier):
                          'stand-in <string> (inline flavour), <vector>, <memory> (unique_ptr<char>/<char[]>), <cstring> models of CBMC', 'MiniSat',
                          'ASSUMED contracts of the environment of the two sliced assigners: common::Tokenizer yields any number of arbitrary strings; '
                          'boost::lexical_cast<int> returns any value or throws; common::contains only reads; TypedArgBase::check/format do not touch '
-                         'mIndex/mDestVar; ICardinality::gotValue may throw; std::sort requires a valid range inside one object; '
+                         'mIndex/mDestVar; ICardinality::gotValue may throw; std::sort requires a valid range inside one object; std::bitset<N>::operator[] requires pos < N (unchecked access); '
                          'T (&mDestVar)[N] stands as pointer to a separate N-element array (reference-to-array members cannot be initialised by the front end)',
                          'static fact (regex, every run): mIndex of both classes is initialised to 0 and written only in assign()'],
         'assumptions': ['bounded argv / string sizes (see instances)', 'a throw ends the path (no exception object modelled)',
                         'static scan (supporting fact, regex): raw memory handling in the argument-handling sources occurs in ' + ', '.join(sorted(unit.scan)) +
                         (('; NOT under contract: ' + ', '.join(unit.unexpected_raw)) if unit.unexpected_raw else '; all of these are under contract'),
-                        'typed destinations other than the two fixed-size arrays (containers, tuple, bitset, optional, ValueFilter) are not under contract: they store through library containers',
+                        'typed destinations other than the two fixed-size arrays and the bitset (containers, tuple, optional, ValueFilter) are not under contract: they store through library containers or compile-time indices',
+                        'program-name blocks: names <= 4 (quick) / 6 (thorough) characters; basename() as the __xpg_basename of glibc (may modify the path, returns a pointer into it, static storage for an empty path) and getenv() by ASSUMED contract; static storage is outside the frame; boost::to_upper upper-cases in place; array new spelled as the allocation function (R-NEWARR, unusable under dfcc otherwise)',
                         'CBMC pointer checks are object-granular: the array destination of the slices is a separate object so that a write behind it is an obligation'],
-        'not_under_contract': list(unit.shadow.dropped) + ['Handler (everything except the two sliced program-name copies)', 'TypedArg<...> destinations other than T[N] and std::array<T,N>'],
+        'not_under_contract': list(unit.shadow.dropped) + ['Handler (everything except the sliced program-name copies and blocks)', 'TypedArg<...> destinations other than T[N], std::array<T,N> and std::bitset<N>'],
         'extra': {'static_scan': {k: v[:20] for k, v in unit.scan.items()}, 'raw_memory_sites_not_under_contract': unit.unexpected_raw,
                   'name_copy_slices': unit.slices, 'array_assigner_slices': unit.assigners},
     }
